@@ -1222,9 +1222,9 @@ func TestVerifC12(t *testing.T) {
 		HtlcTimeoutAction, HtlcClaimAction, HtlcFailDustAction, HtlcOutgoingWatchAction,
 		HtlcIncomingWatchAction, HtlcIncomingDustFinalAction, HtlcFailDanglingAction)
 
-	nUnit, nArb, maxH := 260, 2600, 8
+	nUnit, nArb, maxH := 1200, 14000, 8
 	if tier == "thorough" {
-		nUnit, nArb, maxH = 2500, 40000, 14
+		nUnit, nArb, maxH = 25000, 450000, 14
 	}
 
 	for _, e := range c12Corpus() {
